@@ -128,6 +128,8 @@ IMPORT_CASES = [
     ("use-missing-symbol", {"main.fer": 'import "app/m";\nfn main() { m::Nope(); m::Nope.x; }\n', "m.fer": 'fn Yes() { }\n'}),
     ("deep-missing", {"main.fer": 'import "app/a";\nfn main() { a::F(); }\n', "a.fer": 'import "app/b";\nfn F() { b::G(); }\n', "b.fer": 'import "app/zzz";\nfn G() { }\n'}),
     ("module-dir", {"main.fer": 'import "app/sub/x";\nfn main() { x::F(); }\n', "sub/x.fer": 'fn F() { }\n'}),
+    # two modules whose import paths collapse to the same symbol prefix: everything passes until the linker
+    ("link-collision", {"main.fer": 'import "std/io";\nimport "app/a_b";\nimport "app/a/b";\nfn main() { io::Println(a_b::F()); }\n', "a_b.fer": "fn F() -> i32 { return 1; }\n", "a/b.fer": "fn F() -> i32 { return 2; }\n"}),
     ("module-dir-missing", {"main.fer": 'import "app/sub";\nfn main() { }\n', "sub/x.fer": 'fn F() { }\n'}),
 ]
 
